@@ -228,4 +228,43 @@ def moment_checks():
         c = cells[0]
         if c['form'] != 'logaffine' or abs(c['c0'] - (np.log(y) - 0.18)) > 1e-12 or abs(c['coef'][0][1] - 0.6) > 1e-12:
             fails.append(('CellLaw', 'LogNormalErrorModel mean', dict(y=y, cell=c)))
+    fails += hetero_checks()
+    return fails
+
+
+def hetero_checks(n=600):
+    """HeterogeneousModel (alone and inside a composition): its log-likelihood scores exactly the individuals' own
+    parameter vectors (rows of the (n_ids, n_dim) matrix the flat vector is read as); so every sample must BE one of those
+    rows, every individual must be reachable with the same weight (chi-square at level 1e-9, seeded), and a flat vector and
+    the matrix it stands for must give the same samples."""
+    from scipy import stats
+    fails = []
+    for n_ids, n_dim in ((2, 1), (3, 2), (2, 3)):
+        m = chi.HeterogeneousModel(n_dim=n_dim)
+        m.set_n_ids(n_ids)
+        mat = np.array([[10.0 * (i + 1) + d for d in range(n_dim)] for i in range(n_ids)])
+        flat = mat.flatten()
+        try:
+            smp = np.asarray(m.sample(flat, n_samples=n, seed=4), dtype=float)
+            smp2 = np.asarray(m.sample(mat, n_samples=n, seed=4), dtype=float)
+            comp = chi.ComposedPopulationModel([chi.PooledModel(), chi.HeterogeneousModel(n_dim=n_dim)])
+            comp.set_n_ids(n_ids)
+            smp3 = np.asarray(comp.sample(np.concatenate([[7.0], flat]), n_samples=50, seed=4), dtype=float)
+        except Exception as e:
+            fails.append(('CellLaw', 'HeterogeneousModel.sample', dict(n_ids=n_ids, n_dim=n_dim, error=repr(e))))
+            continue
+        rows = [tuple(r) for r in mat]
+        who = [rows.index(tuple(r)) if tuple(r) in rows else -1 for r in smp.reshape(n, n_dim)]
+        if -1 in who:
+            fails.append(('CellLaw', 'HeterogeneousModel sample is not an individual', dict(
+                n_ids=n_ids, n_dim=n_dim, sample=smp.reshape(n, n_dim)[who.index(-1)].tolist(), individuals=mat.tolist())))
+            continue
+        cnts = np.bincount(who, minlength=n_ids)
+        if np.any(cnts == 0) or float(np.sum((cnts - n / n_ids) ** 2 / (n / n_ids))) > stats.chi2.isf(1e-9, n_ids - 1):
+            fails.append(('CellLaw', 'HeterogeneousModel individuals not equally likely', dict(counts=cnts.tolist())))
+        if smp.shape != smp2.shape or not np.array_equal(smp, smp2):
+            fails.append(('CellLaw', 'HeterogeneousModel flat vs matrix parameters', dict(n_ids=n_ids, n_dim=n_dim)))
+        if any(tuple(r[1:]) not in rows or r[0] != 7.0 for r in smp3.reshape(50, 1 + n_dim)):
+            fails.append(('CellLaw', 'composed heterogeneous block is not an individual', dict(
+                n_ids=n_ids, n_dim=n_dim, sample=smp3.reshape(50, -1)[0].tolist())))
     return fails
